@@ -19,6 +19,18 @@ Space  : the correlation family K of DESIGN.md section 4 (table size x spacing
          built by the three constructors AND read from YAML by the three
          classes with the numbers spelled as repr / integer / %.17e and with
          the points listed in reversed order.
+         Fourth wave - a correlation is a long-lived object that update()
+         merges further pieces into, or REFUSES to (family U, alphabets in
+         domains/w4_c05.py): receiver = ThermochemIncomplete / ThermochemGroup
+         on the non-polynomial table (N and T_ref placements per NU, wide
+         range) holding (H,S), H only, S only or neither; piece = 8 Cp parts
+         (none, equal point, contradicting point, new point above / below /
+         behind the first knot, new point + contradiction in both dict orders)
+         x H {none, equal, other} x S {none, equal, other} x overwrite
+         {False, True}, less the two that bring nothing = 142; ALL histories
+         of length 1 over the 142 pieces,
+         ALL histories of length 2 (thorough: also 3) over a 22-piece
+         sub-alphabet, every history on one live object.
 Oracle : knots reproduced; reference values returned at T_ref; T*H/RT and S/R
          differences equal the integrals of the correlation's own Cp/R (held at
          the end values outside the table) computed by an independent
@@ -29,6 +41,17 @@ Oracle : knots reproduced; reference values returned at T_ref; T*H/RT and S/R
          knots, return the reference values at T_ref, give G = H - S and agree
          to 1e-12 on the small grid with the constructor object made from the
          same numbers (which is itself judged against the integrals).
+         Family U: a dictionary model says which pieces are refused and what
+         the data are afterwards (initial data + accepted pieces, nothing of
+         a refused one).  After every step the object's public account of its
+         data (ND_Cp_data, has_ND_Cp, ND_H_ref, ND_S_ref, T_ref, range) must
+         equal the model, and the piece handed in must be unchanged; after
+         the history every point the object lists in ND_Cp_data is reproduced
+         by get_CpoR, the object is judged against the integrals with the
+         model's data (judge_correlation; judge_partial when H or S is
+         absent), agrees to 1e-12 with the object the constructor makes from
+         the model's data on every knot / piece temperature / range end, and
+         a copy() taken before the history still lists the initial data.
 """
 import itertools
 import json
@@ -38,6 +61,7 @@ from ..runner import Result
 from ..models import thermoref as tr
 from ..domains import libs
 from ..domains import w3_c05 as w3
+from ..domains import w4_c05 as w4
 
 LEVEL = 'exploration'
 # scipy quad over a piecewise-cubic integrand: observed discrepancies up to
@@ -55,6 +79,14 @@ SPACINGS_Y = {'quick': lambda N: ['eq'] if N == 1 else ['uneq'],
               'thorough': lambda N: ['eq'] if N == 1 else ['eq', 'uneq']}
 YAML_ROUTES = [(how, 'sorted') for how in w3.SPELLINGS] + [('repr', 'reversed')]
 PLACEMENTS = ['below', 'first', 'between', 'interior', 'last', 'above']
+# family U (histories of update() on one live object, see run_U): for each
+# history length the receiver tables and T_ref placements
+NU = {'quick': {1: ([1, 3], ['first', 'above']), 2: ([3], ['first', 'above'])},
+      'thorough': {1: ([1, 2, 3, 5], PLACEMENTS),
+                   2: ([1, 3], ['first', 'between', 'above']),
+                   3: ([3], ['first'])}}
+# length-3 histories only on receivers holding both reference values
+U_HS = {1: [0, 1, 2, 3], 2: [0, 1, 2, 3], 3: [0]}
 BOUND = {t: 'N in %s x 2 spacings x (polynomial degree 0..min(3,N-1) + one '
             'non-polynomial sequence with a zero and a negative value) x 6 '
             'T_ref placements x 3 ranges x %d (H_ref,S_ref) pairs x all supply '
@@ -63,10 +95,19 @@ BOUND = {t: 'N in %s x 2 spacings x (polynomial degree 0..min(3,N-1) + one '
             'the default with no T_ref line) x {wide, no} range x %d x %d '
             'reference values (0.0, -0.0, 1e-300, ordinary, 1e6) x (3 constructors '
             '+ 3 classes x %d YAML routes: spellings repr/int/%%.17e, reversed '
-            'point order); 9 shipped libraries, every group'
+            'point order); family U: histories of update() on one live '
+            'ThermochemIncomplete / ThermochemGroup, receiver reference values '
+            '(H,S)/(H,-)/(-,S)/(-,-): %s; 9 shipped libraries, every group'
             % (NS[t], len(HS[t]), NY[t],
                'uneq' if t == 'quick' else 'eq+uneq', len(w3.HREF), len(w3.SREF),
-               len(YAML_ROUTES)) for t in NS}
+               len(YAML_ROUTES),
+               '; '.join('all %d^%d histories of length %d over the %s on tables N in %s '
+                         'x T_ref %s%s' % (
+                             len(w4.pieces() if L == 1 else w4.pieces2()), L, L,
+                             'full piece alphabet' if L == 1 else 'piece sub-alphabet',
+                             NU[t][L][0], NU[t][L][1],
+                             '' if len(U_HS[L]) == 4 else ' (receiver with H and S only)')
+                         for L in sorted(NU[t]))) for t in NS}
 RULE = ('every member of the family K x every supply order x every grid '
         'temperature (range ends, T_ref, knots, inter-knot midpoints, range '
         'midpoint) is evaluated; a correlation is non-trivial when it exercises '
@@ -74,7 +115,11 @@ RULE = ('every member of the family K x every supply order x every grid '
         'inside the table or fewer than four points; counted per distinct '
         '(table, T_ref, range, reference values); every (table, T_ref, range, '
         'reference pair) of family Y is evaluated through every constructor and '
-        'every YAML route and counts once (its range is wide or absent)')
+        'every YAML route and counts once (its range is wide or absent); '
+        'family U: every history over the piece alphabet is executed on a '
+        'fresh receiver and judged after every step (account of the data) and '
+        'at its end (values); a history is non-trivial when a step is refused '
+        'or brings a Cp point')
 ASSUMPTIONS = ['the interpolant between knots is whatever get_CpoR returns: '
                'the integral relations are judged against the correlation\'s '
                'own Cp (statement does not fix the interpolation order)',
@@ -88,7 +133,13 @@ ASSUMPTIONS = ['the interpolant between knots is whatever get_CpoR returns: '
                '(same data, two routes) rather than re-integrated',
                'reference values up to 1e6 only: with 1e300 the sum S_ref + '
                'integral is absorbed in floating point and the integral relation '
-               'cannot hold for any implementation']
+               'cannot hold for any implementation',
+               'family U: the data of a correlation after update() calls are '
+               'the initial data plus every accepted piece (overwrite replaces), '
+               'a refused piece leaves them as they were; all pieces carry the '
+               'receiver\'s T_ref and range (other T_ref: C13, range unions: '
+               'C06); a reference value re-stated by an accepted piece may come '
+               'back changed in the last bits (compared to 1e-12)']
 MANIFEST = dict(
     technique='bounded-exhaustive enumeration of a correlation family x all '
               'supply orders vs closed-form / independent quadrature oracle',
@@ -103,7 +154,12 @@ MANIFEST = dict(
          'crosses all pairs of reference values from {0.0, -0.0, 1e-300, '
          'ordinary, 1e6} with the three constructors and the YAML route '
          '(three number spellings, reversed point order, T_ref line omitted). '
-         'Exhaustive inside that family.',
+         'A third family runs every history of update() calls up to the stated '
+         'length (accepted and refused pieces, with and without overwrite, new '
+         'and contradicting Cp points and reference values) on one live object '
+         'and compares its account of its data and its values with a '
+         'dictionary model and with the constructor. '
+         'Exhaustive inside these families.',
     note='Temperatures are grid points, not all reals; table sizes above 16 '
          'and other value shapes are not covered. YAML entries in dimensional '
          'form (H_ref, S_ref, Cp_data with units) are not part of this check.',
@@ -173,6 +229,20 @@ def shards(tier, seed):
                 if pl != 'default' and tref_for(table(N, spacing, 'seq')[0], pl) is None:
                     continue
                 out.append(('Y', N, spacing, pl))
+    for L in sorted(NU[tier]):
+        Ns, pls = NU[tier][L]
+        for cls_name in ('Incomplete', 'Group'):
+            for N in Ns:
+                for pl in pls:
+                    if tref_for(table(N, 'eq' if N == 1 else 'uneq', 'seq')[0], pl) is None:
+                        continue
+                    for hsi in U_HS[L]:
+                        if L == 3:
+                            # 22^3 histories: one shard per first piece
+                            for first in range(len(w4.pieces2())):
+                                out.append(('U', L, cls_name, N, pl, hsi, first))
+                        else:
+                            out.append(('U', L, cls_name, N, pl, hsi, None))
     for name in libs.LIBS:
         out.append(('lib', name))
     return out
@@ -524,6 +594,227 @@ def run_Y(R, N, spacing, pl, tier, only=None):
                        pl == 'default', desc, wit)
 
 
+def judge_partial(k, H, S, Ts, Cps, Tref, rng):
+    """judge_correlation for a correlation that holds only one (or none) of
+    the two reference values: knots reproduced, the held reference value
+    returned at T_ref, and the integral relation of the held quantity against
+    the correlation's own Cp/R (same quadrature: consecutive grid intervals,
+    accumulated from T_ref, T_ref-anchored and neighbour differences).
+    Returns (probs, n_temperatures)."""
+    probs = []
+    lo, hi = rng if rng is not None else (Ts[0], Ts[-1])
+    grid, _ = tr.temperature_grid(lo, hi, Tref, Ts)
+    cpv, hv, sv = {}, {}, {}
+    for T in grid:
+        try:
+            cpv[T] = float(k.get_CpoR(T))
+            if H is not None:
+                hv[T] = float(k.get_HoRT(T))
+            if S is not None:
+                sv[T] = float(k.get_SoR(T))
+        except Exception as e:     # noqa
+            probs.append(('exception', 'T=%r: %s: %s' % (T, type(e).__name__, e)))
+            return probs, len(cpv)
+    for T, Cp in zip(Ts, Cps):
+        if rel(cpv[T], Cp) > 1e-9:
+            probs.append(('knot', 'Cp/R(%g)=%r, tabulated %r' % (T, cpv[T], Cp)))
+            break
+    if H is not None and rel(hv[Tref], H) > 1e-9:
+        probs.append(('ref-H', 'H/RT(T_ref=%g)=%r, reference %r' % (Tref, hv[Tref], H)))
+    if S is not None and abs(sv[Tref] - S) > 1e-9 * max(1.0, abs(S)):
+        probs.append(('ref-S', 'S/R(T_ref=%g)=%r, reference %r' % (Tref, sv[Tref], S)))
+    if H is None and S is None:
+        return probs, len(grid)
+    scaleH = max(abs((H or 0.0) * Tref), max(abs(x) for x in Cps) * (hi - lo), 1.0)
+    xs, ws = tr._GL
+    segH, segS = [], []
+    for u, v in zip(grid[:-1], grid[1:]):
+        n = max(1, int(math.ceil((v - u) / 120.0)))
+        aH, aS = [], []
+        for j in range(n):
+            p, q = u + (v - u) * j / n, u + (v - u) * (j + 1) / n
+            h, m = 0.5 * (q - p), 0.5 * (p + q)
+            for x, w_ in zip(xs, ws):
+                t = m + h * x
+                cv = float(k.get_CpoR(t))
+                aH.append(h * w_ * cv)
+                aS.append(h * w_ * cv / t)
+        segH.append(math.fsum(aH))
+        segS.append(math.fsum(aS))
+    ir = grid.index(Tref)
+
+    def cum(seg, i):
+        if i >= ir:
+            return math.fsum(seg[ir:i])
+        return -math.fsum(seg[i:ir])
+    for i, T in enumerate(grid):
+        pairs = [(Tref, cum(segH, i), cum(segS, i))]
+        if i > 0:
+            pairs.append((grid[i - 1], segH[i - 1], segS[i - 1]))
+        for T1, iH, iS in pairs:
+            if T1 == T:
+                continue
+            if H is not None:
+                dH = T * hv[T] - T1 * hv[T1]
+                if abs(dH - iH) > 1e-9 * scaleH:
+                    probs.append(('int-H', 'T*H/RT from %g to %g changes by %r, '
+                                  'integral of Cp/R is %r' % (T1, T, dH, iH)))
+            if S is not None:
+                dS = sv[T] - sv[T1]
+                if abs(dS - iS) > STOL * max(1.0, abs(iS)):
+                    probs.append(('int-S', 'S/R from %g to %g changes by %r, '
+                                  'integral of Cp/(RT) is %r' % (T1, T, dS, iS)))
+        if len(probs) > 6:
+            break
+    return probs, len(grid)
+
+
+def account(k, cand):
+    """The correlation's own public account of its data."""
+    rng = k.get_range()
+    return dict(table=sorted((float(T), float(v)) for T, v in dict(k.ND_Cp_data or {}).items()),
+                listed=[float(T) for T in cand if k.has_ND_Cp(T)],
+                h=None if k.ND_H_ref is None else float(k.ND_H_ref),
+                s=None if k.ND_S_ref is None else float(k.ND_S_ref),
+                has=(bool(k.has_ND_H()), bool(k.has_ND_S()), bool(k.has_ND_Cp())),
+                tref=float(k.T_ref),
+                range=None if rng is None else (float(rng[0]), float(rng[1])))
+
+
+def account_vs_model(acc, model, Tref, rng, cand):
+    """[(check, detail)] - where the object's account differs from the data
+    the model says it holds."""
+    Ts, Cps, h, s = model.data()
+    out = []
+    if acc['table'] != list(zip(Ts, Cps)):
+        out.append(('table', 'ND_Cp_data lists %r, the data supplied (initial + accepted '
+                    'pieces) are %r' % (acc['table'], list(zip(Ts, Cps)))))
+    if acc['listed'] != [T for T in cand if T in model.table]:
+        out.append(('table', 'has_ND_Cp(T) is true for %r, the data supplied have points '
+                    'at %r' % (acc['listed'], [T for T in cand if T in model.table])))
+    for nm, got, want in (('H_ref', acc['h'], h), ('S_ref', acc['s'], s)):
+        if (got is None) != (want is None) or (want is not None and rel(got, want) > 1e-12):
+            out.append(('ref', 'ND_%s is %r, the data supplied say %r' % (nm, got, want)))
+    if acc['has'] != (h is not None, s is not None, bool(Ts)):
+        out.append(('ref', '(has_ND_H, has_ND_S, has_ND_Cp) = %r, the data supplied say %r'
+                    % (acc['has'], (h is not None, s is not None, bool(Ts)))))
+    if acc['tref'] != Tref or acc['range'] != tuple(rng):
+        out.append(('frame', '(T_ref, range) = %r, every piece had %r' % (
+            (acc['tref'], acc['range']), (Tref, tuple(rng)))))
+    return out
+
+
+def run_history(R, cls_name, N, pl, hsi, steps):
+    """One history of update() calls on one fresh receiver (module docstring,
+    'Family U').  The witness carries the receiver and ALL steps."""
+    from pgradd.ThermoChem import ThermochemIncomplete, ThermochemGroup
+    from pgradd.Error import ReadOnlyDataError
+    cls = ThermochemIncomplete if cls_name == 'Incomplete' else ThermochemGroup
+    Ts, Cps, _ = table(N, 'eq' if N == 1 else 'uneq', 'seq')
+    Tref = tref_for(Ts, pl)
+    rng = dict(ranges_for(Ts, Tref))['wide']
+    H0, S0 = w4.RECV_HS[hsi]
+    cand = w4.candidate_temperatures(Ts)
+    wit = dict(kind='U', cls=cls_name, N=N, placement=pl, hs=hsi, steps=list(steps))
+    what = '%s on table %r (T_ref=%g, range %r, H_ref=%r, S_ref=%r) after %s' % (
+        cls_name, list(zip(Ts, Cps)), Tref, rng, H0, S0,
+        ' ; '.join('update(Cp %r, H_ref=%r, S_ref=%r, overwrite=%r)' % (
+            w4.cp_points(st['cp'], Ts, Cps), w4.H_PART[st['h']], w4.S_PART[st['s']],
+            st['ow']) for st in steps))
+    model = w4.Model(Ts, Cps, H0, S0)
+    pattern = ''
+    bad = []
+
+    def flag(key, detail):
+        bad.append(key)
+        R.violation('update:%s:%s' % (key, cls_name), '%s: %s' % (what, detail), wit)
+    R.evals += 1
+    a = cls(H0, S0, dict(zip(Ts, Cps)), Tref, rng)
+    twin = a.copy()
+    made = {}
+    for st in steps:
+        kk = dkey(st)
+        if kk not in made:     # the same piece twice = the same object twice
+            made[kk] = cls(w4.H_PART[st['h']], w4.S_PART[st['s']],
+                           dict(w4.cp_points(st['cp'], Ts, Cps)), Tref, rng)
+        b = made[kk]
+        before_b = account(b, cand)
+        want = model.step(st)
+        try:
+            a.update(b, overwrite=st['ow'])
+            got = 'accepted'
+        except ReadOnlyDataError:
+            got = 'refused'
+        except Exception as e:      # noqa
+            flag('raises-%s' % type(e).__name__, 'update() raised %s: %s' % (
+                type(e).__name__, e))
+            break
+        pattern += got[0].upper()
+        if got != want:
+            # the model and the object have parted: nothing further to compare
+            flag('%s-where-data-%s' % (got, 'agree' if want == 'accepted' else 'contradict'),
+                 'update() %s a piece that the data held so far %s' % (
+                     'refused' if got == 'refused' else 'accepted',
+                     'do not contradict' if want == 'accepted' else 'contradict (overwrite=False)'))
+            break
+        if account(b, cand) != before_b:
+            flag('piece-changed', 'the correlation handed to update() lists %r afterwards, '
+                 '%r before' % (account(b, cand), before_b))
+        for chk, detail in account_vs_model(account(a, cand), model, Tref, rng, cand)[:2]:
+            flag('%s-after-%s' % (chk, got), detail)
+    else:
+        # values, after the whole history
+        Tm, Cm, h, s = model.data()
+        try:
+            for T, v in sorted(dict(a.ND_Cp_data).items()):
+                if rel(float(a.get_CpoR(T)), float(v)) > 1e-9:
+                    flag('listed-point-not-reproduced', 'ND_Cp_data lists Cp/R(%g)=%r, '
+                         'get_CpoR gives %r' % (T, float(v), float(a.get_CpoR(T))))
+                    break
+        except Exception as e:      # noqa
+            flag('listed-point-not-reproduced', 'get_CpoR at a listed point: %s: %s' % (
+                type(e).__name__, e))
+        if h is not None and s is not None:
+            probs, vals = judge_correlation(a, h, s, Tm, Cm, Tref, rng, None)
+            R.evals += len(vals)
+        else:
+            probs, n = judge_partial(a, h, s, Tm, Cm, Tref, rng)
+            R.evals += n
+        for chk, detail in probs[:3]:
+            flag(chk, detail)
+        # same data, two routes: the constructor
+        fresh = cls(h, s, dict(zip(Tm, Cm)), Tref, rng)
+        grid = sorted(set(cand + [rng[0], rng[1], Tref]))
+        for T in grid:
+            try:
+                va = [float(a.get_CpoR(T))] + ([float(a.get_HoRT(T))] if h is not None else []) \
+                    + ([float(a.get_SoR(T))] if s is not None else [])
+            except Exception as e:      # noqa
+                flag('exception', 'T=%r: %s: %s' % (T, type(e).__name__, e))
+                break
+            vf = [float(fresh.get_CpoR(T))] + ([float(fresh.get_HoRT(T))] if h is not None else []) \
+                + ([float(fresh.get_SoR(T))] if s is not None else [])
+            if any(rel(x, y) > 1e-12 for x, y in zip(va, vf)):
+                flag('differs-from-constructor', '(Cp[,H][,S])(%g)=%r, the constructor with '
+                     'the data supplied %r, H_ref=%r, S_ref=%r gives %r' % (
+                         T, va, list(zip(Tm, Cm)), h, s, vf))
+                break
+        t_acc = account(twin, cand)
+        if (t_acc['table'], t_acc['h'], t_acc['s']) != (list(zip(Ts, Cps)), H0, S0):
+            flag('copy-changed', 'a copy() taken before the history now lists %r' % (t_acc,))
+    if 'R' in pattern or any(st['cp'] != 'none' for st in steps):
+        R.nontrivial += 1
+    R.outcomes['update:%s:%s' % (pattern, 'inconsistent' if bad else 'consistent')] += 1
+    R.sample(dict(wit, Ts=Ts, Cps=Cps, T_ref=Tref, range=rng, pattern=pattern), limit=1)
+
+
+def run_U(R, L, cls_name, N, pl, hsi, first):
+    alphabet = w4.pieces() if L == 1 else w4.pieces2()
+    heads = [alphabet] if first is None else [[alphabet[first]]]
+    for steps in itertools.product(*(heads + [alphabet] * (L - 1))):
+        run_history(R, cls_name, N, pl, hsi, steps)
+
+
 def run_lib(R, name, only=None):
     lib = libs.load(name)
     for g in sorted(lib.contents, key=str):
@@ -557,6 +848,8 @@ def run_shard(shard, tier):
         run_K(R, shard[1], shard[2], shard[3], shard[4], tier)
     elif shard[0] == 'Y':
         run_Y(R, shard[1], shard[2], shard[3], tier)
+    elif shard[0] == 'U':
+        run_U(R, *shard[1:])
     else:
         run_lib(R, shard[1])
     return R
@@ -571,6 +864,8 @@ def replay(w):
     elif w['kind'] == 'Y':
         d = w['desc']
         run_Y(R, d['N'], d['spacing'], d['placement'], 'thorough', only=d)
+    elif w['kind'] == 'U':
+        run_history(R, w['cls'], w['N'], w['placement'], w['hs'], w['steps'])
     else:
         run_lib(R, w['lib'], only=w['group'])
     return dict(violates=bool(R.violations),
